@@ -201,7 +201,7 @@ class InstrHooks(Hooks):
                 if n in ('__int__', '__bool__', '__bytes__', '__len__', '__str__', '__iter__'):
                     return NotImplemented
                 if not self.inline_types:
-                    it.event('type-call', n, recv, args)
+                    it.event('type-call', n, recv, args, dict(kwargs))
                     return App(f'{fi.cls.name}.{n}', *([recv] if recv is not None else []), *args, *[App('kw', k, v) for k, v in sorted(kwargs.items())])
         if self.is_instr_cls(callee):
             return Obj(callee.qual, dict(kwargs, _args=tuple(args)), tag='instr')
